@@ -577,3 +577,43 @@ def run_sparsezero(prog, ctx=None):
                    "" if ok else "table %s is addressed by computed index (%d places) and only partly written by its initialiser, but its memory comes from %s() without being cleared: unregistered slots and unset members hold whatever the heap block held" % (
                        l["d"]["n"], indexed[l["d"]["n"]], callee_name(r)))
     return res
+
+
+def run_stabletable(prog, ctx=None):
+    """STABLETABLE: a table whose entries are handed out by address (`return T + i`, `return &T[i]`, T a file-level pointer)
+    stays where it is: no realloc() of T anywhere in the file.  Callers keep the addresses (buffers store their traits
+    pointer and compare descriptions by address); a table that moves when it grows leaves them pointing into freed memory
+    and makes one id resolve to different description objects over time."""
+    res = Result("STABLETABLE")
+    files = set(ctx.get("files", [])) if ctx else None
+    from .rules_path import funcs_of
+    fs = funcs_of(prog, files)
+    handed = {}
+    for f in fs:
+        for b, i, e in f.elements():
+            if e.get("k") != "ret" or e.get("e") is None:
+                continue
+            for m in walk(e["e"]):
+                g = None
+                if m.get("k") == "idx":
+                    a = strip(m["a"], all_casts=True)
+                    if a.get("k") == "ref" and a["d"].get("dk") == "global":
+                        g = a
+                elif m.get("k") == "bin" and m.get("op") == "+":
+                    a = strip(m["a"], all_casts=True)
+                    if a.get("k") == "ref" and a["d"].get("dk") == "global" and f.T(a.get("t")).get("k") == "ptr":
+                        g = a
+                if g is not None and f.T(e["e"].get("t")).get("k") == "ptr":
+                    handed.setdefault(g["d"]["n"], (f, e))
+    for name, (hf, he) in sorted(handed.items()):
+        bad = None
+        for f in fs:
+            for b, i, e in f.elements():
+                if e.get("k") == "call" and callee_name(e) == "realloc" and e.get("args"):
+                    a0 = strip(e["args"][0], all_casts=True)
+                    if a0.get("k") == "ref" and a0["d"].get("n") == name:
+                        bad = (f, e)
+        res.ob("%s:entries of %s handed out by address" % (hf.file, name), bad is None, bad[0] if bad else hf, (bad[1].get("l") if bad else he.get("l")) or hf.line,
+               "" if bad is None else "%s() returns addresses of entries of %s (`%s`), and %s() moves the table with `%s`: addresses kept by callers dangle once the table grows" % (
+                   hf.name, name, norm(show(he, hf))[:50], bad[0].name, norm(show(bad[1], bad[0]))[:50]))
+    return res
